@@ -252,6 +252,9 @@ type Scenario struct {
 	Groups     int  `json:"quota_groups,omitempty"`       // fixed window grouped by a header: requests spread over this many groups
 	UDM        bool `json:"user_defined_gauge,omitempty"` // a UserDefinedMetrics gauge processor in front of the limiter
 	Queue      bool `json:"queue_flow,omitempty"`         // requests wait in a Queue processor for a slot of a concurrent quota (real clock)
+	// first transactions of a NEW quota group all at once: PerG rounds; in round r all Goroutines are released together,
+	// every one with the header value n<r> that no transaction carried before (fixed window grouped by header, limit Max)
+	NewGroups bool `json:"first_of_new_group_rounds,omitempty"`
 	// policy mode (policy.go): transactions through processRequest/processResponse of a policy-mode
 	// manager with a fixed-response and a caching remedy
 	Policy bool `json:"policy_mode,omitempty"`
@@ -276,6 +279,9 @@ type ChildResult struct {
 	Refused     int64 `json:"refused"`
 	Errors      int64 `json:"errors"`
 	MaxInFlight int64 `json:"max_in_flight"`
+	// first-of-new-group rounds only: admitted transactions per round (= per quota group), rounds that ran
+	RoundAdmitted []int64 `json:"admitted_per_round,omitempty"`
+	RoundRefused  []int64 `json:"refused_per_round,omitempty"`
 	// routing level only
 	Transactions int64 `json:"transactions,omitempty"`
 	ReloadsDone  int64 `json:"reloads_done,omitempty"`
@@ -323,7 +329,7 @@ func child() {
 	default:
 		os.WriteFile(filepath.Join(flows, "rl.yaml"), []byte(flowFor(sc.UDM)), 0o644)
 	}
-	if sc.Groups > 0 {
+	if sc.Groups > 0 || sc.NewGroups {
 		os.WriteFile(filepath.Join(quotas, "q.yaml"), []byte(quotaYAMLGrouped(sc.Max)), 0o644)
 	} else {
 		os.WriteFile(filepath.Join(quotas, "q.yaml"), []byte(quotaYAML(sc.Max, sc.Concurrent || sc.Queue)), 0o644)
@@ -431,9 +437,11 @@ func child() {
 		}()
 	}
 	var seq int64
-	doReq := func(id string) (admitted bool) {
+	doReqG := func(id, group string) (admitted bool) {
 		hdr := map[string]string{}
-		if sc.Groups > 0 {
+		if group != "" {
+			hdr["x-group"] = group
+		} else if sc.Groups > 0 {
 			hdr["x-group"] = fmt.Sprintf("g%d", atomic.AddInt64(&seq, 1)%int64(sc.Groups))
 		}
 		req := lunar_messages.OnRequest{ID: id, SequenceID: id, Method: "GET", Scheme: "https",
@@ -453,6 +461,7 @@ func child() {
 		atomic.AddInt64(&res.Admitted, 1)
 		return true
 	}
+	doReq := func(id string) bool { return doReqG(id, "") }
 	doResp := func(id string) {
 		resp := lunar_messages.OnResponse{ID: id, SequenceID: id, Method: "GET", URL: "box.com/files",
 			Status: 200, Headers: map[string]string{}, Time: time.Now()}
@@ -462,7 +471,40 @@ func child() {
 			atomic.AddInt64(&res.Errors, 1)
 		}
 	}
-	if sc.Queue {
+	if sc.NewGroups {
+		// rounds: the goroutines of a round are all the FIRST transactions of one quota group nobody
+		// used before (header value n<round>) and are released at the same moment: the group object is
+		// looked up / created by all of them at once. Verdicts are counted per round = per group.
+		for round := 0; round < sc.PerG; round++ {
+			var start, done sync.WaitGroup
+			start.Add(1)
+			var adm, ref int64
+			admitted := make([]bool, sc.Goroutines)
+			group := fmt.Sprintf("n%d", round)
+			for g := 0; g < sc.Goroutines; g++ {
+				done.Add(1)
+				go func(g int) {
+					defer done.Done()
+					start.Wait()
+					if doReqG(fmt.Sprintf("t-%d-%d", g, round), group) {
+						admitted[g] = true
+						atomic.AddInt64(&adm, 1)
+					} else {
+						atomic.AddInt64(&ref, 1)
+					}
+				}(g)
+			}
+			start.Done()
+			done.Wait()
+			res.RoundAdmitted = append(res.RoundAdmitted, adm)
+			res.RoundRefused = append(res.RoundRefused, ref)
+			for g := 0; g < sc.Goroutines; g++ {
+				if admitted[g] {
+					doResp(fmt.Sprintf("t-%d-%d", g, round))
+				}
+			}
+		}
+	} else if sc.Queue {
 		// every goroutine sends its requests one after the other; an admitted request holds its
 		// slot of the concurrent quota until its response: never more than max in flight
 		var inFlight int64
@@ -674,6 +716,7 @@ func staticPairs(path string) map[string]string {
 		Gen     []string          `json:"generation_fields"`
 		Dropped map[string]bool   `json:"dropped_fields"`
 		Atomic  map[string]string `json:"atomic_report"`
+		GoC     map[string]string `json:"get_or_create_report"`
 	}
 	if json.Unmarshal(raw, &f) != nil {
 		return nil
@@ -723,6 +766,11 @@ func staticPairs(path string) map[string]string {
 	for fn, problem := range f.Atomic {
 		if problem != "" {
 			out["not-atomic:"+fn] = fn + " is modelled as one atomic step but " + problem
+		}
+	}
+	for site, problem := range f.GoC {
+		if problem != "" {
+			out["not-atomic:get-or-create:"+site] = "get-or-create site " + site + " " + problem
 		}
 	}
 	byField := map[string][]factSite{}
@@ -834,7 +882,7 @@ func main() {
 	o.Rule("each evaluation = one scenario run of the -race built engine in a child process " +
 		"(G goroutines x R request/response pairs through one Limiter flow with quota max K in a single window, " +
 		"optionally with a concurrent metrics reader, a concurrent engine load, the map vacuum, a header-grouped " +
-		"window whose group counters are read for metrics, a user-defined gauge, a queue flow on a concurrent quota, " +
+		"window whose group counters are read for metrics, rounds of simultaneous first transactions of a new quota group, a user-defined gauge, a queue flow on a concurrent quota, " +
 		"policy-mode remedies, admin reloads / validations at routing level, filter-tree shapes = 1-7 flows on a wildcard node + " +
 		"flows on a deeper wildcard + one flow per exact URL with transactions on different URLs at once, sampled flows), " +
 		"or one schedule of overlapping executions of a real flow (txctx2), or one schedule of look-ups and uses of the " +
@@ -887,6 +935,11 @@ func main() {
 			// audit 2026-09-29: the paths the enlarged translator found unprotected pairs on
 			// a fixed window grouped by a header, its group counters read "for metrics"     [F-C18j, F-C18l]
 			{Goroutines: 8, PerG: 25, Max: 4, Groups: 12, Metrics: true},
+			// many transactions that are the FIRST of the same new quota group at once (get-or-create of the
+			// group object: seeded change C18-12), room for everybody / fewer slots than first-comers
+			// (with the seeded change 1-3 % of the rounds differ; 400 / 300 rounds make a silent run or replay improbable)
+			{Goroutines: 16, PerG: 400, Max: 30, NewGroups: true},
+			{Goroutines: 12, PerG: 300, Max: 5, NewGroups: true},
 			// a UserDefinedMetrics gauge in front of the limiter                             [F-C18k]
 			{Goroutines: 6, PerG: 20, Max: 30, UDM: true},
 			// policy mode: fixed-response and caching remedies                               [F-C18h, F-C18m]
@@ -912,6 +965,10 @@ func main() {
 			if i%4 == 1 {
 				scenarios = append(scenarios, Scenario{Goroutines: o.Rng.Range(2, 8), PerG: o.Rng.Range(2, 5),
 					Max: o.Rng.Range(1, 4), Queue: true})
+			}
+			if i%2 == 0 && o.Tier != "quick" {
+				scenarios = append(scenarios, Scenario{Goroutines: o.Rng.Range(2, 16), PerG: o.Rng.Range(100, 600),
+					Max: o.Rng.Range(1, 20), NewGroups: true})
 			}
 			if o.Tier != "quick" { // random filter-tree shapes (the quick tier runs shapeTable only)
 				scenarios = append(scenarios, Scenario{Shape: fmt.Sprintf("random%d", i), Goroutines: o.Rng.Range(2, 10), PerG: o.Rng.Range(10, 60),
@@ -1094,6 +1151,32 @@ func main() {
 				o.Hit(c.Hit{Suite: "stress", Index: i, Signature: "not-serializable:queue-flow",
 					Demanded: fmt.Sprintf("at most %d transactions in flight at any instant, all %d admitted within the queue TTL, no errors", sc.Max, total),
 					Observed: fmt.Sprintf("max in flight=%d admitted=%d refused=%d errors=%d", res.MaxInFlight, res.Admitted, res.Refused, res.Errors), Case: sc})
+			}
+		} else if sc.NewGroups {
+			// one window per group, one group per round: in any one-at-a-time order of the round's
+			// transactions each is admitted while fewer than max were admitted before it, i.e. exactly
+			// min(goroutines, max) are admitted and the others refused; nobody fails
+			wantR := int64(sc.Goroutines)
+			if int64(sc.Max) < wantR {
+				wantR = int64(sc.Max)
+			}
+			bad, first := 0, ""
+			for r, a := range res.RoundAdmitted {
+				ref := int64(-1)
+				if r < len(res.RoundRefused) {
+					ref = res.RoundRefused[r]
+				}
+				if a != wantR || ref != int64(sc.Goroutines)-wantR {
+					if bad++; first == "" {
+						first = fmt.Sprintf("round %d (group n%d): admitted=%d refused=%d", r, r, a, ref)
+					}
+				}
+			}
+			if bad > 0 || res.Errors != 0 || len(res.RoundAdmitted) != sc.PerG {
+				o.Hit(c.Hit{Suite: "stress", Index: i, Signature: "not-serializable:first-of-group-verdicts",
+					Demanded: fmt.Sprintf("in every round the %d simultaneous first transactions of a new quota group (limit %d) get the verdicts of some one-at-a-time order: %d admitted, %d refused, no errors; %d rounds",
+						sc.Goroutines, sc.Max, wantR, int64(sc.Goroutines)-wantR, sc.PerG),
+					Observed: fmt.Sprintf("%d of %d rounds differ, first: %s; errors=%d", bad, len(res.RoundAdmitted), first, res.Errors), Case: sc})
 			}
 		} else if sc.Groups > 0 {
 			// one window per group: in any one-at-a-time order group g admits min(requests of g, max)
